@@ -78,11 +78,13 @@ DirUseDocs ==
 \* also with those a LATER document adds to the input type.  Each case is a history of two documents.
 DRange(fs) == InputD("Range", fs)
 DirInputHist ==
-  { << << DirectiveD("limit", <<ArgD("by", Named("Range")), ArgDD("dflt", Named("Range"), V("obj", [min |-> IntV(0)]))>>, <<"OBJECT", "ENUM_VALUE", "SCALAR">>),
+  { << << DirectiveD("limit", das, <<"OBJECT", "ENUM_VALUE", "SCALAR">>),
           DRange(<<ArgD("min", I)>>),
           WithDirs(ObjectD("Query", <<>>, <<FieldD("f", S, <<>>), FieldD("e", Named("E"), <<>>)>>), u),
           EnumD("E", <<[EV("P") EXCEPT !.dirs = u], EV("Q")>>) >>,
        << Ext(DRange(x)) >> >> :
+      \* (with and without an argument that has a default of its own: without one only the USES stand between the extension and the root)
+      das \in { <<ArgD("by", Named("Range")), ArgDD("dflt", Named("Range"), V("obj", [min |-> IntV(0)]))>>, <<ArgD("by", Named("Range"))>> },
       u \in { <<DU("limit", <<AV("by", V("obj", [min |-> IntV(1)]))>>)>>, <<DU("limit", <<>>)>>, <<DU("limit", <<AV("by", V("obj", [x \in {} |-> 0]))>>)>> },
       \* (a required field without a default makes the uses that are there invalid: the extension is refused, the root prints as before)
       x \in { <<ArgDD("max", I, IntV(10))>>, <<ArgD("max", I)>>, <<ArgDD("tags", ListOf(S), ListV(<<StrV("t")>>)), ArgDD("max", I, IntV(10))>>,
